@@ -28,7 +28,13 @@ func (u *UseCase) UpdateTx(ctx context.Context, oldTxId, newTxId string, filter 
 		u.txStore.Put(newTxId, newTx)
 	}
 
-	newTx.RLock()
+	newTx.Lock()
+	u.allStore.Lock()
+	defer func() {
+		u.allStore.Unlock()
+		newTx.Unlock()
+	}()
+
 	var (
 		files     = make([]model.File, 0, tx.Len())
 		freeNodes = make([]*core.Node[model.File], 0, tx.Len())
@@ -63,7 +69,6 @@ func (u *UseCase) UpdateTx(ctx context.Context, oldTxId, newTxId string, filter 
 			freeNodes = append(freeNodes, n)
 		}
 	}
-	newTx.RUnlock()
 	if err != nil {
 		return
 	}
@@ -71,13 +76,6 @@ func (u *UseCase) UpdateTx(ctx context.Context, oldTxId, newTxId string, filter 
 	if len(files) == 0 {
 		return
 	}
-
-	newTx.Lock()
-	u.allStore.Lock()
-	defer func() {
-		u.allStore.Unlock()
-		newTx.Unlock()
-	}()
 
 	err = u.fileRepo.RunTransaction(ctx, func(ctx context.Context) error {
 		for i := range files {
